@@ -126,6 +126,10 @@ Open(l, uc, cc, r, t) ==
                               copyOf |-> 0, loaded |-> {}, mutated |-> {}]]
           /\ last' = [op |-> "open", loc |-> l, uc |-> uc, cc |-> cc, rpc |-> r, slot |-> t,
                       outcome |-> IF fails THEN FailKind(l, uc, cc) ELSE "tree",
+                      \* why it fails: a damaged file (the properties demand the error) or only the unusable cache directory (an
+                      \* implementation that tolerates that and returns the tree violates nothing: the replay treats it as drift)
+                      cause |-> IF ~fails THEN "none"
+                                ELSE IF HeadFail(l) # "none" \/ store[l].dmg[Images[FirstImgFail(l, uc, cc)]] # "ok" THEN "file" ELSE "cachedir",
                       ver |-> store[l].ver, src |-> [m \in ImageSet |-> Src(l, m, uc)],
                       cver |-> [m \in ImageSet |-> ServedVer(l, m, uc)], judged |-> Judged(l, uc),
                       written |-> w]
